@@ -78,7 +78,7 @@ pub fn gen_c15(rng: &mut Rng, run_seed: u64, miri: bool) -> Program {
                 items.push(id);
                 prog.pusher.push(FAct::Item(0));
             }
-            prog.pipes.push(PipeDef { obj: 0, through: false, depth: 5, items, preloaded: 0, preclosed: false, mpsc: false, register_first: false, keep_waker: false, chain_to: None });
+            prog.pipes.push(PipeDef { obj: 0, through: false, depth: 5, items, preloaded: 0, preclosed: false, mpsc: false, register_first: false, keep_waker: false, chain_to: None, self_wakes: 0 });
             t0.push(TAct::PipeCreate(0));
         }
         11 => {
@@ -97,7 +97,7 @@ pub fn gen_c15(rng: &mut Rng, run_seed: u64, miri: bool) -> Program {
                 items.push(id);
                 prog.pusher.push(FAct::Item(0));
             }
-            prog.pipes.push(PipeDef { obj: 0, through: true, depth: 5, items, preloaded: 0, preclosed: false, mpsc: false, register_first: false, keep_waker: false, chain_to: None });
+            prog.pipes.push(PipeDef { obj: 0, through: true, depth: 5, items, preloaded: 0, preclosed: false, mpsc: false, register_first: false, keep_waker: false, chain_to: None, self_wakes: 0 });
             t0.clear();
             t0.push(TAct::PipeCreate(0)); t0.push(TAct::StashStream(0)); t0.push(TAct::ReleaseMortal);
             drop_dead_stream = true;
@@ -154,7 +154,7 @@ pub fn gen_c15(rng: &mut Rng, run_seed: u64, miri: bool) -> Program {
         let item = prog.add_op(o, Kind::PipeItem, Disp::None, vec![Step::Touch]);
         let p = prog.pipes.len();
         prog.ops[item].pipe = Some(p);
-        prog.pipes.push(PipeDef { obj: o, through: true, depth: 5, items: vec![item], preloaded: 0, preclosed: false, mpsc: false, register_first: false, keep_waker: false, chain_to: None });
+        prog.pipes.push(PipeDef { obj: o, through: true, depth: 5, items: vec![item], preloaded: 0, preclosed: false, mpsc: false, register_first: false, keep_waker: false, chain_to: None, self_wakes: 0 });
         ht.push(vec![TAct::PipeCreate(p), TAct::Push(p), TAct::Consume(p, 1), TAct::DropStream(p)]);
     }
     prog.phases.push(Phase { name: "healthy_objects_after_the_panic", threads: ht, ..Default::default() });
